@@ -26,6 +26,7 @@ def gen_scenario(rng):
     p_map = rng.choice([0.0, 0.0, 0.3, 0.6])
     p_async = rng.choice([0.0, 0.2, 0.5])
     p_paged = rng.choice([0.0, 0.25, 0.5])
+    p_poll = rng.choice([0.0, 0.0, 0.2, 0.4])
     loading = set()
     npend = 0
     for _ in range(n):
@@ -41,10 +42,18 @@ def gen_scenario(rng):
             kind = "m" if rng.random() < p_map else "r"
             if rng.random() < p_paged and ch not in lens:
                 kind = "p"
+            elif rng.random() < p_poll:
+                # shared-poll channels live in their own name space ("poll:<n>", ids 200+)
+                kind = "s"
+                ch = 200 + ch
             base = len(f"c{ch}")
             if ch not in lens:
                 lens[ch] = base
-                if maxlen and rng.random() < 0.25:
+                if ch >= 200:
+                    # the shared-poll path has no channel-name length check (names are "poll:<n>"); the
+                    # length conjunct is exercised on the regular and map paths only
+                    lens[ch] = 0
+                elif maxlen and rng.random() < 0.25:
                     lens[ch] = max(base, rng.choice([maxlen, maxlen + 1, maxlen + 3]))
             ln = lens[ch]
             if ch in busy:
@@ -70,6 +79,8 @@ def gen_scenario(rng):
                 done.add(i)
                 ops.append(f"complete i={i}")
         elif r < 0.93:
+            if rng.random() < p_poll:
+                ch = 200 + ch
             if ch not in busy:
                 ops.append(f"unsub ch={ch}")
         else:
